@@ -341,7 +341,7 @@ func (u *Unit) ghostOf(st *State, k string) string {
 func (fr *Frame) invoke(c *ssa.CallCommon, recv *Val, args []*Val, st *State, pos token.Pos, resTy types.Type) *Val {
 	u := fr.u
 	eng := u.eng
-	u.oblige(fr, st, "nil", "invoke."+c.Method.Name(), fmt.Sprintf("(distinct (typ %s) T_nil)", recv.T), pos, "method call on nil interface")
+	u.oblige(fr, st, "nil", "invoke."+c.Method.Name(), fmt.Sprintf("(distinct (ityp %s) T_nil)", recv.T), pos, "method call on nil interface")
 	// stdlib interface methods (reflect.Type, error, ...)
 	iname := ifaceMethodName(c)
 	if m, ok := stdIfaceModels[iname]; ok {
@@ -387,7 +387,7 @@ func (fr *Frame) pureImplFacts(c *ssa.CallCommon, recv *Val, res *Val, st *State
 			continue
 		}
 		cvv := u.constVal(cv)
-		u.fact(implies(eq(fmt.Sprintf("(typ %s)", recv.T), u.w.tag(impl.recv)), eq(res.T, cvv.T)))
+		u.fact(implies(eq(fmt.Sprintf("(ityp %s)", recv.T), u.w.tag(impl.recv)), eq(res.T, cvv.T)))
 		u.usedPure[fnKey(impl.fn)] = true
 	}
 }
